@@ -17,6 +17,10 @@ def sh(cmd, cwd, env=None, timeout=3600):
     p = subprocess.run(cmd, shell=True, cwd=cwd, env=env, capture_output=True, text=True, timeout=timeout)
     return p.returncode, p.stdout + p.stderr
 res = {'seed': name, 'property': meta.get('property')}
+_prev = os.path.join('/verif/seeded', name, 'detection.json')
+if '--no-confirm' in sys.argv and os.path.exists(_prev):
+    # detection-only rerun: keep the confirmation recorded earlier
+    res.update({k: v for k, v in json.load(open(_prev)).items() if k in ('demo_passes_without_patch', 'demo_fails_with_patch', 'existing_suite_passes_with_patch', 'confirmed')})
 wt = '/tmp/confirm_' + name
 if '--no-confirm' not in sys.argv:
     subprocess.run(['git', '-C', '/repo', 'worktree', 'remove', '--force', wt], capture_output=True)
